@@ -101,7 +101,9 @@ class C05(Prop):
                    'the acceptance theorems take "the oracle accepts signature j for key j" as hypothesis; the '
                    '"must be rejected" half is established only by the correspondence run (impl = model = prediction)',
                    'fields in wire range (Spec.Commit.WFc), script code <= MAX_SIZE, regular case (input idx exists; under '
-                   'SINGLE output idx exists) for committed_edit_changes; uncommitted_edit_preserves has no hypothesis']
+                   'SINGLE output idx exists) for committed_edit_changes; uncommitted_edit_preserves has no hypothesis',
+                   'prediction `differs` for an edit that moves the transaction into / out of the SIGHASH_SINGLE "return '
+                   'one" case additionally assumes SHA-256d never yields the constant 1 (preimage resistance)']
     level = 'proof'
     rule = ('7 templates x hash types {ALL,NONE,SINGLE}x{,ANYONECANPAY} + undefined type bytes x shapes (1..4 inputs, '
             '0..4 outputs, signing position first/middle/last, SINGLE with idx >= |vout|) x compressed/uncompressed keys '
@@ -131,8 +133,10 @@ class C05(Prop):
 
     # ---- building and signing spends (library code on purpose: this is what the property is about) ----------
     def make_keys(self, rng, n):
-        ks = []
-        for _ in range(n):
+        """n keys with pairwise different SECRETS (the same secret in compressed and uncompressed form is the same
+        key: its signatures verify under both encodings)"""
+        secs = []
+        while len(secs) < n:
             r = rng.random()
             if r < 0.06:
                 sec = b'\x00' * 31 + b'\x01'                     # secret 1: the public key is the generator
@@ -140,11 +144,9 @@ class C05(Prop):
                 sec = b'\x00' * 31 + bytes([rng.randrange(2, 256)])
             else:
                 sec = bytes(rng.getrandbits(8) for _ in range(32))
-            ks.append(self.W.CBitcoinSecret.from_secret_bytes(sec, compressed=rng.random() < 0.6))
-        # distinct public keys (a repeated key would make "signature from another key" ambiguous)
-        if len(set(bytes(k.pub) for k in ks)) != len(ks):
-            return self.make_keys(rng, n)
-        return ks
+            if sec not in secs:
+                secs.append(sec)
+        return [self.W.CBitcoinSecret.from_secret_bytes(sec, compressed=rng.random() < 0.6) for sec in secs]
 
     def template(self, name, keys):
         """(scriptPubKey, script code that is signed, m, keys that may sign, builder of scriptSig from [sig])"""
